@@ -39,10 +39,11 @@ type exitPoint struct {
 }
 
 type loopInfo struct {
-	header *ssa.BasicBlock
-	body   map[*ssa.BasicBlock]bool
-	parent *loopInfo
-	ord    int
+	header  *ssa.BasicBlock
+	body    map[*ssa.BasicBlock]bool
+	parent  *loopInfo
+	ord     int
+	entrySt *State // state on entry to the loop (for pre() in invariants)
 }
 
 func (x *Executor) pos(fn *ssa.Function, p token.Pos) string {
@@ -303,6 +304,7 @@ func (x *Executor) execLoop(fr *Frame, li *loopInfo, ins []incoming) map[*ssa.Ba
 		reachE = "(or " + strings.Join(conds, " ") + ")"
 	}
 	reachE = u.define(fmt.Sprintf("rloop$%s.%d", fr.fn.Name(), li.ord), "Bool", reachE)
+	li.entrySt = stE
 	// header phis get havoced values (computed in execRegion via execPhi with missing edges)
 	var spec *LoopSpec
 	if fr.con != nil {
@@ -401,6 +403,9 @@ func (x *Executor) execLoop(fr *Frame, li *loopInfo, ins []incoming) map[*ssa.Ba
 	sort.Strings(cs)
 	for _, c := range cs {
 		n := u.freshConst(c+"@L", u.heapSorts[c])
+		if ax := u.heapTyping(c, n); ax != "" {
+			u.emit("(assert " + ax + ")")
+		}
 		if ws.all {
 			x.protectComp(stE, stH, c, x.heapGet(stE, c), n)
 		}
@@ -413,6 +418,20 @@ func (x *Executor) execLoop(fr *Frame, li *loopInfo, ins []incoming) map[*ssa.Ba
 	var lks []localKey
 	for k := range ws.locals {
 		lks = append(lks, k)
+	}
+	loopTaint := map[string]bool{}
+	for t := range ws.ltaint {
+		loopTaint[t] = true
+	}
+	for k := range ws.locals {
+		if v, ok := stE.locals[k]; ok {
+			for _, t := range v.Taint {
+				loopTaint[t] = true
+			}
+		}
+	}
+	for t := range loopTaint {
+		x.recordLocalTaint(Val{Taint: []string{t}})
 	}
 	sort.Slice(lks, func(i, j int) bool {
 		if lks[i].alloc.Pos() != lks[j].alloc.Pos() {
@@ -434,7 +453,8 @@ func (x *Executor) execLoop(fr *Frame, li *loopInfo, ins []incoming) map[*ssa.Ba
 		u.assume(u.wfValue(n, ty, 0))
 		hv := Val{T: n, Ty: ty}
 		if isPointerLike(ty) || u.sortOf(ty) == "Slice" || u.sortOf(ty) == "Iface" || strings.HasPrefix(u.sortOf(ty), "|S$") {
-			for r := range stH.fresh {
+			// it may hold any protected pointer that some local held on entry or received in the loop
+			for r := range loopTaint {
 				hv.Taint = append(hv.Taint, r)
 			}
 		}
@@ -723,10 +743,11 @@ func (x *Executor) rootLoad(st *State, a *Addr) (string, types.Type) {
 }
 
 func fieldType(u *Unit, structT types.Type, field string) types.Type {
-	st := structT.Underlying().(*types.Struct)
-	for i := 0; i < st.NumFields(); i++ {
-		if st.Field(i).Name() == field {
-			return st.Field(i).Type()
+	if st, ok := structT.Underlying().(*types.Struct); ok {
+		for i := 0; i < st.NumFields(); i++ {
+			if st.Field(i).Name() == field {
+				return st.Field(i).Type()
+			}
 		}
 	}
 	for _, g := range u.ghostFields(structT) {
@@ -753,6 +774,11 @@ func (x *Executor) load(st *State, a *Addr, reach string) Val {
 	t := x.applyPath(root, nil, a.Path)
 	t = u.define("ld", u.sortOf(a.Ty), t)
 	v := Val{T: t, Ty: a.Ty}
+	if a.Kind == "local" {
+		if lv, ok := st.locals[a.Local]; ok {
+			v.Taint = lv.Taint
+		}
+	}
 	if wf := u.wfValue(t, a.Ty, 0); wf != "true" {
 		u.assume(wf)
 	}
@@ -819,6 +845,7 @@ func (x *Executor) store(st *State, a *Addr, v Val, reach string) {
 	if a.Kind == "local" && len(a.Path) == 0 {
 		st.locals[a.Local] = v
 		x.recordLocalWrite(a.Local)
+		x.recordLocalTaint(v)
 		return
 	}
 	if v.Addr != nil {
@@ -833,8 +860,10 @@ func (x *Executor) store(st *State, a *Addr, v Val, reach string) {
 	switch a.Kind {
 	case "local":
 		ty := a.Local.alloc.Type().(*types.Pointer).Elem()
-		st.locals[a.Local] = Val{T: u.define("loc$"+a.Local.alloc.Comment, u.sortOf(ty), nv), Ty: ty}
+		old := st.locals[a.Local]
+		st.locals[a.Local] = Val{T: u.define("loc$"+a.Local.alloc.Comment, u.sortOf(ty), nv), Ty: ty, Taint: unionTaint(old, v)}
 		x.recordLocalWrite(a.Local)
+		x.recordLocalTaint(v)
 	case "field":
 		comp, _ := u.fieldComp(a.Struct, a.Field)
 		x.heapSet(st, comp, fmt.Sprintf("(store %s %s %s)", x.heapGet(st, comp), a.Ref, nv))
